@@ -1,10 +1,115 @@
-(* C04 -- property theorems only (bodies live in DecProofs.v / ScanProofs.v / RoundTrip.v / CheckProofs.v). *)
+(* C04 -- property theorems only (bodies live in DecProofs.v / ScanProofs.v / WriteProofs.v / RoundTrip.v /
+   CheckProofs.v).
+
+   F sz e : the text printf("%.16g" / "%.7g") writes for the floating-point element with native bytes e
+   P sz s : the native bytes scanf("%lf" / "%f") stores for the token s
+   They are universally quantified; [fcontract F P t] (Spec.v, H_num) is the only thing assumed about
+   them and is evaluated by the contract monitor on every case of every run. *)
 From Coq.Strings Require Import Byte.
 From EsVerif.Common Require Import Base Bytes.
-From EsVerif.C04 Require Import TextModel Spec DecProofs ScanProofs.
+From EsVerif.C04 Require Import TextModel Spec DecProofs ScanProofs WriteProofs RoundTrip CheckProofs.
 
+(* ---- integers: printf %d / scanf %d and the memory image are inverse to each other *)
 Theorem C04_dec_parse_roundtrip : forall z, parse_dec (dec z) = z.
 Proof. exact dec_parse_roundtrip. Qed.
 
+Theorem C04_dec_chars : forall z, tok_ok TInt (dec z) = true
+  /\ exists sg ds, dec z = sg ++ ds /\ (sg = [] \/ sg = [minus]) /\ ds <> [] /\ Forall (fun b => is_digit b = true) ds.
+Proof. intro z. split; [apply tok_ok_dec|apply dec_shape]. Qed.
+
 Theorem C04_int_image_roundtrip : forall sg e, encode_le (length e) (decode_le sg e) = e.
 Proof. exact encode_decode_le. Qed.
+
+(* ---- the scanner: after the text of a field followed by its delimiter or newline, the reader returns
+   the field and leaves the stream at the first byte of the next field -- under the premise the proof
+   forces: a numeric field read with the format "<conv> <delim>" must not be followed (behind a
+   white-space separator) by white space or the delimiter character *)
+Theorem C04_scan_field_consumes_exactly : forall F P d, delim_ok d -> forall f els sep rest,
+  fld_ok_b f = true -> length els = fnel f -> Forall (cell_good F P (fkind f)) els ->
+  sep = d \/ sep = nl ->
+  (is_str (fkind f) = false -> byte_eqb d space = false -> safe_next d sep rest) ->
+  read_field P d f (join_els d (map (cell_text F (fkind f)) els) ++ sep :: rest)
+  = Ok (map (rt_el F P (fkind f)) els, rest).
+Proof. exact read_field_ok. Qed.
+
+(* ---- the round trip (sfile: the row count comes from the header), outside the known class *)
+Theorem C04_roundtrip_outside_known : forall F P d t,
+  table_ok t -> delim_ok d -> fcontract F P t -> kf_leading_ws_after_numeric d t = false ->
+  read_text P d (tdt t) (Z.of_nat (length (trows t))) (write_text F d t) = Ok (expected F P t)
+  /\ roundtrip_ok t (read_text P d (tdt t) (Z.of_nat (length (trows t))) (write_text F d t)).
+Proof.
+  intros F P d t Ht Hd Hc Hk. pose proof (roundtrip_model F P d Hd t Ht Hc Hk) as E.
+  split; [exact E|]. rewrite E. apply expected_ok; assumption.
+Qed.
+
+(* ---- the same through Recfile without nrows= (rows counted as lines of the file) *)
+Theorem C04_roundtrip_recfile_outside_known : forall F P d t,
+  table_ok t -> delim_ok d -> fcontract F P t -> strings_noeol t -> kf_leading_ws_after_numeric d t = false ->
+  count_lines (write_text F d t) = Z.of_nat (length (trows t))
+  /\ roundtrip_ok t (read_text P d (tdt t) (count_lines (write_text F d t)) (write_text F d t)).
+Proof.
+  intros F P d t Ht Hd Hc Hn Hk. pose proof (count_lines_text F P d Hd t Ht Hc Hn) as E.
+  split; [exact E|]. rewrite E. apply C04_roundtrip_outside_known; assumption.
+Qed.
+
+(* ---- for the white-space delimiter the statement holds at full strength (the class is empty) *)
+Theorem C04_roundtrip_space_delim : forall F P t,
+  table_ok t -> fcontract F P t ->
+  roundtrip_ok t (read_text P space (tdt t) (Z.of_nat (length (trows t))) (write_text F space t)).
+Proof. intros F P t Ht Hc. apply C04_roundtrip_outside_known; try assumption; reflexivity. Qed.
+
+(* ---- the full statement ("for every single-character delimiter", strings with leading blanks) is false
+   of the code: [('s','S3'),('i','i4')], rows ("  a",1),("  b",2), delim ',' *)
+Definition kf_witness : table :=
+  {| tdt := [ {| fname := [x73]; fkind := KStr 3; forder := NA; fshape := [] |};
+              {| fname := [x69]; fkind := KInt true 4; forder := LE; fshape := [] |} ];
+     trows := [ [[[x20; x20; x61]]; [[x01; x00; x00; x00]]]; [[[x20; x20; x62]]; [[x02; x00; x00; x00]]] ] |}.
+
+Theorem C04_full_refuted : exists F P d t,
+  table_ok t /\ delim_ok d /\ fcontract F P t /\ strings_noeol t
+  /\ ~ roundtrip_ok t (read_text P d (tdt t) (Z.of_nat (length (trows t))) (write_text F d t)).
+Proof.
+  exists (fun _ e => e), (fun _ e => e), x2c, kf_witness.
+  split; [reflexivity|]. split; [reflexivity|]. split; [reflexivity|]. split; [reflexivity|].
+  assert (E : read_text (fun _ e => e) x2c (tdt kf_witness) (Z.of_nat (length (trows kf_witness)))
+                (write_text (fun _ e => e) x2c kf_witness) = Err ERuntime) by (vm_compute; reflexivity).
+  rewrite E. intros [tout [H _]]. discriminate.
+Qed.
+
+(* ---- the stored header records the delimiter and a byte-order-free dtype *)
+Theorem C04_header : forall d t, header_ok d t (header_delim d, header_dtype (tdt t)).
+Proof. exact header_model_ok. Qed.
+
+(* ---- tables holding the same values in different byte orders produce the same text *)
+Theorem C04_big_endian_same_text : forall F d t t',
+  map fkind (tdt t) = map fkind (tdt t') ->
+  map (to_native_row (tdt t)) (trows t) = map (to_native_row (tdt t')) (trows t') ->
+  write_text F d t = write_text F d t'.
+Proof. exact same_values_same_text. Qed.
+
+Theorem C04_write_text_native : forall F d t, write_text F d (native_table t) = write_text F d t.
+Proof. exact write_text_native. Qed.
+
+(* ---- soundness of the checkers evaluated on the implementation's outputs *)
+Theorem C04_checkers_sound :
+  (forall tin out, roundtrip_check tin out = true -> roundtrip_ok tin out)
+  /\ (forall d t h, header_check d t h = true -> header_ok d t h)
+  /\ (forall digits a b, fval_ok_b digits a b = true -> fval_ok digits a b).
+Proof.
+  split; [exact roundtrip_check_sound|]. split; [exact header_check_sound|exact fval_ok_b_sound].
+Qed.
+
+(* ---- non-vacuity: a table with a blank-leading string BEFORE the numeric cell in white-space mode, and the
+   same with ',' and no leading blank, meet the hypotheses; the conclusion computes *)
+Definition nv_table : table :=
+  {| tdt := [ {| fname := [x69]; fkind := KInt true 2; forder := BE; fshape := [2] |};
+              {| fname := [x73]; fkind := KStr 3; forder := NA; fshape := [] |} ];
+     trows := [ [[[xff; xfe]; [x01; x00]]; [[x20; x61; x2c]]]; [[[x00; x07]; [x80; x00]]; [[x20; x20; x00]]] ] |}.
+Example C04_nonvacuous :
+  table_ok nv_table /\ fcontract (fun _ e => e) (fun _ e => e) nv_table /\ strings_noeol nv_table
+  /\ kf_leading_ws_after_numeric space nv_table = false /\ delim_ok space
+  /\ kf_leading_ws_after_numeric x3b nv_table = false /\ delim_ok x3b
+  /\ kf_leading_ws_after_numeric x09 nv_table = true
+  /\ write_text (fun _ e => e) x3b nv_table
+     = [x2d; x32; x3b; x32; x35; x36; x3b; x20; x61; x2c; x0a; x37; x3b; x2d; x33; x32; x37; x36; x38; x3b; x20; x20; x00; x0a].
+Proof. repeat split; reflexivity. Qed.
